@@ -13,7 +13,7 @@ PROP = {
         "all twelve header words against short and truncated files at once. Asserted: it returns (Kani's panic, overflow, "
         "bounds and slice checks are all on), and on Ok the sub-file slices tile exactly the 4*lf declared bytes inside the file."),
     "outside": [
-        "files longer than 52 bytes (a minimal valid file is 48 bytes: accepted files are inside the bound, fonts with real tables are not)",
+        "files longer than 52 bytes other than the lf = 32767 family (a minimal valid file is 48 bytes: accepted files are inside the bound, fonts with real tables are not)",
         "File::from_raw_file, validate_and_fix and everything after the raw split (BTreeMap-based tables)",
         "the PL reader (pl::cst / pl::ast over text) and 'PL->TFM output is a readable TFM': text parsing over symbolic strings was not attempted - NOT decided here",
     ],
@@ -21,6 +21,7 @@ PROP = {
     "obligations": [
         A("c10_raw_header_total_28", "every byte string of length 0..=28 (all truncations of a header, lf in {4,5} short files)"),
         A("c10_raw_header_total_52", "every byte string of length 0..=52 (includes every minimal accepted file and files with trailing bytes)"),
+        A("c10_raw_header_largest_lf", "lf = 32767 (131068-byte file, zero body): every value of the other eleven header words", timeout=1500),
         A("c10_valid_lf_all_sizes", "every combination of the eleven non-negative 16-bit sub-file sizes", funcs=["tfm::SubFileSizes::valid_lf"]),
     ],
 }
